@@ -60,7 +60,7 @@ Section KindShapes.
   Variable g : N -> shape.
   Variable P : list tparam_ir.
 
-  Definition fld_of (f : field) : fshape := (f_name f, is_boxed f, g (f_ty f)).
+  Definition fld_of (f : field) : fshape := (f_name f, is_boxed_gen f, g (f_ty f)).
 
   Lemma ckind_shapes fs u k u' :
     create_composite_ir_kind r s fs P u = Ok (k, u') ->
